@@ -12,9 +12,11 @@ per-backend export, xconst forms, safe functions under each dispatcher mask) on 
 partial sum overflows and no product underflows (|x| = 0 or in [2^-30,2^30] for f32, [2^-200,2^200] for f64); \
 reference = double-double accumulation of exact products (for squared_euclidean of the once-rounded differences); \
 check |result-exact| <= gamma(n+3)*sum|terms|; when all data are small integers (every product and partial sum \
-exactly representable) or at most one term is non-zero (one-hot vectors at every index) the result must equal \
+exactly representable), small integer multiples of a subnormal unit (2^-149 / 2^-1074 for sums, 2^-74 / 2^-537 \
+for the product operations: every term and partial sum is an exactly representable subnormal-range value) or at most one \
+term is non-zero (one-hot vectors at every index) the result must equal \
 the exact value. Value classes: uniform-exponent random, wide-exponent random, same-sign, cancelling, small \
-integers, one-hot, sparse. distinct = hash set over (routine, DIMS, mask, a, b); non-trivial = length > 0 and \
+integers, subnormal integers, one-hot, sparse. distinct = hash set over (routine, DIMS, mask, a, b); non-trivial = length > 0 and \
 some term non-zero.";
 
 fn erange<T: Elem>() -> (i32, i32) {
@@ -71,6 +73,13 @@ fn gen_vec<T: Elem>(rng: &mut Rng, n: usize, class: u64, op: Op) -> (Vec<T>, Vec
             }
             // small integers: exact arithmetic
             4 => (vals::small_int::<T>(rng, m), vals::small_int::<T>(rng, m)),
+            // small integers in units of the smallest subnormal (terms: k * 2^-149 / k * 2^-1074 and their small
+            // multiples): exact arithmetic in the gradual-underflow range
+            6 => {
+                let sc = crate::oracle::subnormal_scale::<T>(op);
+                let k = |rng: &mut Rng| -> T { T::from_f64(vals::small_int::<T>(rng, m).to_f64() * sc) };
+                (k(rng), k(rng))
+            }
             // sparse: mostly zeros (both signs of zero)
             _ => {
                 let z = |rng: &mut Rng| -> T {
@@ -91,13 +100,14 @@ fn gen_vec<T: Elem>(rng: &mut Rng, n: usize, class: u64, op: Op) -> (Vec<T>, Vec
     (a, b)
 }
 
-const CLASSES: [&str; 6] = [
+const CLASSES: [&str; 7] = [
     "class:uniform_exponent",
     "class:wide_exponent",
     "class:same_sign",
     "class:cancelling",
     "class:small_integers_exact",
     "class:sparse_signed_zeros",
+    "class:subnormal_integers_exact",
 ];
 
 fn one_target<T: Elem>(ctx: &mut Ctx, t: Target<T>) {
@@ -114,7 +124,7 @@ fn one_target<T: Elem>(ctx: &mut Ctx, t: Target<T>) {
 
     let reps = tier.pick(1, 16);
     for &len in &lens {
-        for class in 0..6u64 {
+        for class in 0..7u64 {
             for _ in 0..reps {
                 let (a, b) = gen_vec::<T>(&mut rng, len, class, op);
                 run.go(T::zero(), a, if two { b } else { Vec::new() });
@@ -160,7 +170,7 @@ fn one_target<T: Elem>(ctx: &mut Ctx, t: Target<T>) {
             if i % 64 == 0 && run.ctx.out_of_time() {
                 break;
             }
-            let class = i as u64 % 6;
+            let class = i as u64 % 7;
             let (a, b) = gen_vec::<T>(&mut rng, pack, class, op);
             run.go(T::zero(), a, if two { b } else { Vec::new() });
             run.tally.add(CLASSES[class as usize], 1);
